@@ -23,16 +23,16 @@ def run(rep):
     control.astvars_deductive(rep)
     syntactic.no_direct_cell_writes(rep)
     q = rep.tier == 'quick'
-    fw.standin(rep, 'difftest.py', ['run', 'F1', rep.seed, 1500 if q else 20000],
+    fw.standin(rep, 'difftest.py', ['run', 'F1', rep.seed, 6000 if q else 40000],
                'translation validation: whole programs (facts, rules, lists, recursion) vs reference SLD interpreter',
                'random layered and recursive programs, queries with unbound/partial/ground arguments')
     if not q:
         fw.standin(rep, 'difftest.py', ['run', 'F1', rep.seed, 0, '--exhaustive'], 'exhaustive head-pattern x query-pattern family',
                    'all head patterns x query patterns of the F1 enumerator', timeout=1800)
-    fw.standin(rep, 's_tv.py', ['run', rep.seed, 2500 if q else 60000],
+    fw.standin(rep, 's_tv.py', ['run', rep.seed, 8000 if q else 80000],
                'A-CPY-TEXT: YPCode trees rendered by the real generator and executed by CPython vs the target semantics <<.>> (calls, answers, yields in order)',
                'all code lists of <=2 statements of depth <=1 + random trees of depth <=4 over goals with 0/1/2 answers, nested blocks')
-    fw.standin(rep, 's_ctl.py', ['run', rep.seed, 500 if q else 8000],
+    fw.standin(rep, 's_ctl.py', ['run', rep.seed, 2000 if q else 12000],
                'control constructs in clauses with plain distinct head variables (no enclosing loop), nested in conditions and under negation',
                'systematic nested-condition trees + random F2 trees')
     rep.notes.append('deductive part: compile_body (conjunction nesting = left-to-right depth-first search); head arguments: exactly the '
